@@ -98,7 +98,10 @@ theorem C08_lazy_create (s s' : State) (i : Nat) (oc : Outcome)
         all_goals first | (simp at h; done) | skip
         all_goals (simp only [Option.some.injEq] at h; subst h)
         all_goals (exfalso; apply hnot; simpa [State.setOp, State.emit] using hin)
-      · simp at h
+      · split at h
+        · simp only [stepRetPanic, Option.some.injEq] at h; subst h
+          exfalso; apply hnot; simpa [State.setOp, State.emit] using hin
+        · simp at h
     | take pc o add =>
       simp only at h
       split at h
@@ -108,7 +111,10 @@ theorem C08_lazy_create (s s' : State) (i : Nat) (oc : Outcome)
         all_goals first | (simp at h; done) | skip
         all_goals (simp only [Option.some.injEq] at h; subst h)
         all_goals (exfalso; apply hnot; simpa [State.setOp, State.emit] using hin)
-      · simp at h
+      · split at h
+        · simp only [stepTakePanic, Option.some.injEq] at h; subst h
+          exfalso; apply hnot; simpa [State.setOp, State.emit] using hin
+        · simp at h
     | resize n c pc old =>
       simp only at h
       split at h
